@@ -204,7 +204,7 @@ func assign(units []unit, n int) [][]unit {
 	sort.SliceStable(idx, func(a, b int) bool { return units[idx[a]].cost > units[idx[b]].cost })
 	load := make([]int64, n)
 	out := make([][]unit, n)
-	// RocksDB units first, onto a quarter of the shards only (their sub-case databases are then shared)
+	// RocksDB units first, onto three eighths of the shards only (their sub-case databases are then shared)
 	sort.SliceStable(idx, func(a, b int) bool {
 		ra := units[idx[a]].kind == "e2e" && units[idx[a]].plan.backend != dnsfix.CDB
 		rb := units[idx[b]].kind == "e2e" && units[idx[b]].plan.backend != dnsfix.CDB
@@ -213,7 +213,7 @@ func assign(units []unit, n int) [][]unit {
 	for _, i := range idx {
 		lim := n
 		if units[i].kind == "e2e" && units[i].plan.backend != dnsfix.CDB {
-			lim = (n + 3) / 4
+			lim = (3*n + 7) / 8 // (6 of 16 shards)
 		}
 		best := 0
 		for s := 1; s < lim; s++ {
